@@ -258,6 +258,38 @@ def generic(built, an):
     return out
 
 
+def g5_local_stores(built, an):
+    """emitted rule code writes only through locals of the rule function (each attempt,
+    invocation and parse has its own frame): no global/nonlocal, no store rooted elsewhere"""
+    out = []
+    tree = built.tree
+    local = {'_pos', '_result', '_status'}
+    for n in ast.walk(tree):
+        if isinstance(n, ast.Name) and isinstance(n.ctx, ast.Store):
+            local.add(n.id)
+    for n in ast.walk(tree):
+        if isinstance(n, (ast.Global, ast.Nonlocal)):
+            out.append(mk('G5-local-stores', built, f'emitted code declares {", ".join(n.names)} '
+                                                     f'{type(n).__name__.lower()}: a binding shared between '
+                                                     f'invocations'))
+        if isinstance(n, (ast.Attribute, ast.Subscript)) and isinstance(n.ctx, (ast.Store, ast.Del)):
+            r = n
+            while isinstance(r, (ast.Attribute, ast.Subscript)):
+                r = r.value
+            if not (isinstance(r, ast.Name) and r.id in local):
+                out.append(mk('G5-local-stores', built, f'emitted code stores through `{ast.unparse(n)}`, which '
+                                                         f'is not rooted at a local of the rule function'))
+        if isinstance(n, ast.Call) and isinstance(n.func, ast.Attribute) and n.func.attr in (
+                'append', 'extend', 'pop', 'clear', 'update', 'add', 'setdefault', 'insert', 'remove'):
+            r = n.func.value
+            while isinstance(r, (ast.Attribute, ast.Subscript)):
+                r = r.value
+            if isinstance(r, ast.Name) and r.id not in local:
+                out.append(mk('G5-local-stores', built, f'emitted code mutates `{ast.unparse(n.func.value)}`, '
+                                                         f'which is not a local of the rule function'))
+    return out
+
+
 def g4_notes(built, an):
     return [f'{built.cfg.cls}: {n}' for n in an.flow.notes]
 
